@@ -762,14 +762,17 @@ fn configure_build(
         let has_build_deps = imported_build_deps.is_some() || module.build_dep_files.is_some();
         // combine local build deps and imported build deps
         let combined_build_deps_iters = [&imported_build_deps, &module.build_dep_files];
-        let combined_build_deps = has_build_deps.then(|| {
-            combined_build_deps_iters
-                .iter()
-                .flat_map(|x| x.iter())
-                .flatten()
-                .map(|x| Cow::from(x.as_ref()))
-                .collect_vec()
-        });
+        let combined_build_deps = has_build_deps
+            .then(|| {
+                combined_build_deps_iters
+                    .iter()
+                    .flat_map(|x| x.iter())
+                    .flatten()
+                    .map(|x| Cow::from(x.as_ref()))
+                    .collect_vec()
+            })
+            // an empty list is no list: same object name and same statement as without
+            .filter(|build_deps| !build_deps.is_empty());
 
         let build_deps_hash = combined_build_deps
             .as_ref()
